@@ -479,10 +479,10 @@ def generate(ctx):
     rng = ctx.rng
     cases = _corpus()
     mx = ctx.n(10, 40)
-    for _ in range(ctx.n(330, 2600)):
-        big = (not ctx.quick()) and rng.rand() < 0.12
+    for _ in range(ctx.n(330, 1500)):
+        big = (not ctx.quick()) and rng.rand() < 0.08
         cases.append(_random_case(rng, mx if big else 10))
-    for _ in range(ctx.n(40, 1500)):     # the F7 class: weight 0, inexact equal sums, two seeds
+    for _ in range(ctx.n(40, 800)):     # the F7 class: weight 0, inexact equal sums, two seeds
         m, n = int(rng.randint(4, 9)), int(rng.randint(4, 9))
         cases.append(mk_case(_image(rng, m, n, "blocky"), _labels(rng, m, n, "adjacent"), np.ones((m, n), bool), 0.0, "f7class"))
     cases.append(_grow_case(rng))
